@@ -24,7 +24,7 @@ def run(r):
         i, c, im, mo = mm[0]
         r.violation("terminals-tie", {"kind": "correspondence-broken", "first": {"case": c, "implementation": im, "model": mo}}, False)
     # the same numbers in the tables: lexgen checks accept parameters (bisim with expected pairs), lrgen feeds tokens by constant
-    lexcommon.run_lex(r, "C19", n_quick=6, n_thorough=60, use=("lex.bisim",))
+    lexcommon.run_lex(r, "C19", n_quick=6, n_thorough=60, use=("lex.bisim",), also_if_broken=("C02", "C07", "C11"))
     return r.finish(LEVEL, "Lean: terminals/constBlock/tokenToString model: EOF=0, ERROR=1, dense, injective, declaration order, ??? outside; "
                     "tie: numbering model vs emitted const block on random multi-file specs; accept parameters and row keys checked through the table validators",
                     common.TRUSTED_COMMON)
